@@ -24,7 +24,7 @@ MODS = (doctrans.emit, doctrans.conformance, doctrans.sync_properties, doctrans.
 KINDS = ("argparse_function", "class", "function")
 FILES = {"argparse_function": "/p/argparse.py", "class": "/p/classes.py", "function": "/p/methods.py"}
 NAMES = {"argparse_function": "set_cli_args", "class": "ConfigClass"}
-PRE = ("missing", "empty", "absent", "stale", "agreeing")
+PRE = ("missing", "empty", "absent", "stale", "agreeing", "stale_extra")
 
 IRS = [
     lambda: mk_ir("p2_both_d", p="the a", d=3),
@@ -85,7 +85,7 @@ def project(truth, given, pre, method, ir_idx, trailing_nl=True):
         elif st == "stale":
             files[FILES[k]] = render(k, STALE(), method)
         else:
-            files[FILES[k]] = None  # agreeing: filled in by a preliminary sync (see agreeing())
+            files[FILES[k]] = None if st == "agreeing" else "<extra>"  # rendered from the truth's description in build()
     return files
 
 
@@ -103,7 +103,7 @@ def run_sync(fs, truth, given, method, extra=False, files=None):
 
 def build(truth, given, pre, method, ir_idx):
     files = project(truth, given, pre, method, ir_idx)
-    todo = [k for k, v in files.items() if v is None]
+    todo = [k for k, v in files.items() if v is None or v == "<extra>"]
     if todo:
         # an 'agreeing' target: the truth's own description rendered as that kind (inside class C for a method) and
         # written the way sync writes files (emit.file with black)
@@ -113,8 +113,13 @@ def build(truth, given, pre, method, ir_idx):
         for f in todo:
             fs0 = FS()
             undo = install(fs0, doctrans.emit)
+            text = render(inv[f], gold, method)
+            if files[f] == "<extra>" and inv[f] == "class":
+                # 'stale_extra': the class agrees with the truth except for ONE extra trailing, undocumented attribute
+                # (same docstring, same prefix of the body, longer list)
+                text = text.rstrip("\n") + "\n    zzz_extra: int = 9\n"
             try:
-                emit.file(ast.parse(render(inv[f], gold, method)), f, mode="wt", skip_black=False)
+                emit.file(ast.parse(text), f, mode="wt", skip_black=False)
             finally:
                 undo()
             files[f] = fs0.files[f]
